@@ -27,6 +27,28 @@ fn digit_patterns(h: usize, rng: &mut Rng, nrand: usize) -> Vec<u64> {
     for _ in 0..nrand {
         v.push(rng.next() & ((1u64 << (2 * h)) - 1).max(0));
     }
+    let mask = (1u64 << (2 * h)) - 1;
+    // short random prefix (0..3 digits), then a run of 8, 12, 16, 20 or 24 zeros / threes, then a random tail:
+    // the shapes on which word-sized (16- and 32-bit) shortcuts in index arithmetic go wrong
+    for plen in 0..4usize { for run in [8usize, 12, 16, 20, 24] { for d in [0u64, 3] {
+        if plen + run > h { continue; }
+        let mut sv = rng.next() & mask;
+        if plen > 0 { // make the prefix non-zero
+            let top = 2 * (h - 1); sv |= 1u64 << top; }
+        for k in (h - plen - run)..(h - plen) { sv = (sv & !(3u64 << (2 * k))) | (d << (2 * k)); }
+        v.push(sv);
+    } } }
+    // a random prefix, a long run of one digit, a random suffix (and the same with the prefix alone)
+    for _ in 0..(nrand + 2) {
+        if h < 6 { break; }
+        let run = 4 + rng.below((h - 3) as u64) as usize;
+        let start = rng.below((h - run + 1) as u64) as usize;
+        let d = [0u64, 3, 0, 3, 1, 2][rng.below(6) as usize];
+        let mut s = rng.next() & mask;
+        for k in start..(start + run).min(h) { s = (s & !(3u64 << (2 * k))) | (d << (2 * k)); }
+        v.push(s);
+        if start > 0 { v.push(s & !((1u64 << (2 * start)) - 1)); v.push(s | ((1u64 << (2 * start)) - 1)); }
+    }
     v.sort_unstable();
     v.dedup();
     v
@@ -424,6 +446,34 @@ pub fn children_event(id: u64, target: Option<i32>) -> Value {
            "list": quads_list(&list), "parents": quads_list(&parents), "ress": ress})
 }
 
+/// a large expansion (beyond the 4^8 fan-out the property names) summarised by the harness: length, strict order of the
+/// returned IDs, how many entries have the wrong resolution / the wrong ancestor, and the extremes
+pub fn childrenbig_event(id: u64, target: i32) -> Value {
+    let r = res_of(id);
+    let list = catch(|| a5::cell_to_children(id, Some(target))).ok().and_then(|x| x.ok());
+    let (ok, list) = match list { Some(l) => (true, l), None => (false, vec![]) };
+    let wrong_res = list.iter().filter(|&&c| res_of(c) != target).count();
+    let wrong_parent = list.iter().filter(|&&c| a5::cell_to_parent(c, Some(r)).ok() != Some(id)).count();
+    let mut sorted = list.clone(); sorted.sort_unstable(); let before = sorted.len(); sorted.dedup();
+    json!({"op": "childrenbig", "id": quads(id), "target": target, "ok": ok, "len_exp4": (list.len() as f64).log(4.0).round() as i64,
+           "len_is_pow4": list.len() > 0 && list.len().is_power_of_two() && list.len().trailing_zeros() % 2 == 0,
+           "wrong_res": wrong_res, "wrong_parent": wrong_parent, "dups": before - sorted.len(),
+           "min": quads(*sorted.first().unwrap_or(&0)), "max": quads(*sorted.last().unwrap_or(&0))})
+}
+
+/// the whole ancestor chain of a cell: direct[a] = cell_to_parent(c, a) for every a in -1..=res, and step[a] =
+/// cell_to_parent(direct[a], a - 1): one event per cell instead of one per (cell, target) pair
+pub fn ancestors_event(c: u64) -> Value {
+    let r = res_of(c);
+    let get = |x: u64, a: i32| catch(|| a5::cell_to_parent(x, Some(a))).ok().and_then(|v| v.ok());
+    let direct: Vec<Option<u64>> = (-1..=r).map(|a| get(c, a)).collect();
+    let step: Vec<Option<u64>> = (0..=r).map(|a| direct[(a + 1) as usize].and_then(|x| get(x, a - 1))).collect();
+    let ok = direct.iter().all(|x| x.is_some()) && step.iter().all(|x| x.is_some());
+    json!({"op": "ancestors", "c": quads(c), "ok": ok,
+           "direct": quads_list(&direct.iter().map(|x| x.unwrap_or(u64::MAX)).collect::<Vec<_>>()),
+           "step": quads_list(&step.iter().map(|x| x.unwrap_or(u64::MAX)).collect::<Vec<_>>())})
+}
+
 pub fn parentcomp_event(c: u64, a: i32, b: i32) -> Value {
     let pa = catch(|| a5::cell_to_parent(c, Some(a))).ok().and_then(|x| x.ok());
     let pb = catch(|| a5::cell_to_parent(c, Some(b))).ok().and_then(|x| x.ok());
@@ -527,7 +577,8 @@ pub fn gen_c07(tier: &str, seed: u64, out: &str) -> Value {
     for r in 2..=29i32 {
         let pats = digit_patterns((r - 1) as usize, &mut rng, 1);
         for (k, &sp) in pats.iter().enumerate() {
-            if tier != "thorough" && k >= 8 && (k + r as usize) % 5 != 0 { continue; }
+            // quick tier: a fifth of the patterns at most resolutions, all of them at the deep end (res >= 26)
+            if tier != "thorough" && r < 26 && k >= 8 && (k + r as usize) % 5 != 0 { continue; }
             let face = ((k * 7 + r as usize) % 12) as u8;
             let seg = (k + r as usize) % 5;
             let c = serialize(&A5Cell { origin_id: face, segment: seg, s: sp, resolution: r }).unwrap();
@@ -535,10 +586,20 @@ pub fn gen_c07(tier: &str, seed: u64, out: &str) -> Value {
             for d in [1, 2, 4] { if r + d <= 29 { t.emit(children_event(c, Some(r + d))); n_children += 1; } }
             t.emit(parentcomp_event(c, r - 1, (r - 3).max(-1)));
             t.emit(parentcomp_event(c, r, 1.min(r)));
+            t.emit(ancestors_event(c));
             if r + 2 <= 29 { t.emit(childcomp_event(c, r + 1, r + 2)); }
             n_comp += 3;
             t.cut();
         }
+    }
+    // a few large expansions (4^9, 4^10 and, thorough, 4^11 children): summarised, not listed
+    for (k, d) in [9, 9, 9, 10, 9, 10, 11, 11].iter().enumerate() {
+        if *d == 11 && tier != "thorough" { continue; }
+        let r = 2 + rng.below((27 - d) as u64) as i32;
+        let c = if k % 2 == 0 { random_cell(&mut rng, r) } else { serialize(&A5Cell { origin_id: 11, segment: (k % 5), s: (1u64 << (2 * (r - 1))) - 1, resolution: r }).unwrap() };
+        t.emit(childrenbig_event(c, r + d));
+        n_children += 1;
+        t.cut();
     }
     // deep: pattern + random cells to r = 29
     let ndeep = if tier == "thorough" { 6000 } else { 700 };
